@@ -1129,6 +1129,44 @@ func ruleChildrenOneMore(c *Ctx, r *R) {
 				}
 			}
 		})
+		// an entry appended at the end by direct stores (rotateLeft: left.keys[left.n] = sep; left.children[left.n+1] = child):
+		// the child that belongs to the right of the new last key goes one slot further than the key
+		{
+			type dstore struct {
+				idx ssa.Value
+				pos token.Pos
+			}
+			kst, cst := map[string][]dstore{}, map[string][]dstore{}
+			instrs(fn, func(_ *ssa.BasicBlock, _ int, in ssa.Instruction) {
+				st, ok := in.(*ssa.Store)
+				if !ok {
+					return
+				}
+				ia, ok := st.Addr.(*ssa.IndexAddr)
+				if !ok {
+					return
+				}
+				nd, arr, ok := nodeArray(ia.X)
+				if !ok || !strings.Contains(path(ia.Index), path(nd)+".n") {
+					return
+				}
+				switch arr {
+				case "keys":
+					kst[path(nd)] = append(kst[path(nd)], dstore{ia.Index, st.Pos()})
+				case "children":
+					if !isNilConst(st.Val) {
+						cst[path(nd)] = append(cst[path(nd)], dstore{ia.Index, st.Pos()})
+					}
+				}
+			})
+			for nd, ks := range kst {
+				cs := cst[nd]
+				if len(ks) != 1 || len(cs) != 1 {
+					continue
+				}
+				r.ok(plusOne(cs[0].idx, ks[0].idx), name+"|append:"+nd, cs[0].pos, "an entry appended to "+nd+" by direct stores puts its key at "+path(ks[0].idx)+" and the child to the right of it at "+path(cs[0].idx)+": that must be exactly one slot further, otherwise the node's previous last child is overwritten (its subtree becomes unreachable) and the last child slot stays nil")
+			}
+		}
 		for k, ks := range keys {
 			cs, ok := kids[k]
 			if !ok {
@@ -1289,6 +1327,111 @@ var _ = late(func() {
 							}
 						}
 						r.ok(good, name+"|"+f+"#"+itoa(k), in.Pos(), self+"."+f+" is indexed with the occupancy of "+other+", another node: whenever the two nodes hold different numbers of entries this addresses the wrong slot (a non-rightmost child, a nil child, a stale entry)")
+					})
+				}
+			}})
+	}
+})
+
+// C03.read-before-vacate: an entry (key, value, child pointer) that is moved from one node into another is read out of its slot
+// BEFORE that node's arrays or count are touched: a read placed after the slot was cleared or after n was lowered
+// (`left.children[left.n] = nil; left.n--; child := left.children[left.n]`) takes the neighbouring slot - the subtree that should
+// move is dropped and another one ends up reachable on two paths.
+var _ = late(func() {
+	for _, pid := range []string{"C03", "C01"} {
+		pid := pid
+		p := properties[pid]
+		p.Rules = append(p.Rules, &Rule{ID: pid + ".read-before-vacate", Floor: 4, Clause: "in package tree a key, value or child that is taken out of node X and put into another node is loaded from X before any store to X.n, any store into that array of X and any insertOne/removeOne on it in the same function (the slot index is only meaningful for the node as it was)",
+			Run: func(c *Ctx, r *R) {
+				fns := c.funcsOfPkg(treeRel)
+				sort.Slice(fns, func(i, j int) bool { return c.nameOf(fns[i]) < c.nameOf(fns[j]) })
+				for _, fn := range fns {
+					name := c.nameOf(fn)
+					k := 0
+					// what touches node nd's array arr / count, and where
+					type touch struct {
+						in  ssa.Instruction
+						nd  string
+						arr string // "n" for the count
+					}
+					var touches []touch
+					instrs(fn, func(_ *ssa.BasicBlock, _ int, in ssa.Instruction) {
+						switch x := in.(type) {
+						case *ssa.Store:
+							if fa, ok := x.Addr.(*ssa.FieldAddr); ok && isNamedType(fa.X.Type(), treeRel, "node") && fieldName(fa.X.Type(), fa.Field) == "n" {
+								touches = append(touches, touch{in, path(fa.X), "n"})
+							}
+							if ia, ok := x.Addr.(*ssa.IndexAddr); ok {
+								if nd, arr, ok := nodeArray(ia.X); ok {
+									touches = append(touches, touch{in, path(nd), arr})
+								}
+							}
+						case *ssa.Call:
+							cal := staticCallee(&x.Call)
+							if cal == nil || (fname(cal) != "insertOne" && fname(cal) != "removeOne") || len(x.Call.Args) == 0 {
+								return
+							}
+							if nd, arr, ok := nodeArray(x.Call.Args[0]); ok {
+								touches = append(touches, touch{in, path(nd), arr})
+							}
+						}
+					})
+					instrs(fn, func(b *ssa.BasicBlock, i int, in ssa.Instruction) {
+						ld, ok := in.(*ssa.UnOp)
+						if !ok || ld.Op != token.MUL {
+							return
+						}
+						ia, ok := ld.X.(*ssa.IndexAddr)
+						if !ok {
+							return
+						}
+						nd, arr, ok := nodeArray(ia.X)
+						if !ok || ld.Referrers() == nil {
+							return
+						}
+						src := path(nd)
+						// is the loaded entry put into another node?
+						moved := false
+						for _, ref := range *ld.Referrers() {
+							switch u := ref.(type) {
+							case *ssa.Store:
+								if u.Val != ssa.Value(ld) {
+									continue
+								}
+								if ia2, ok := u.Addr.(*ssa.IndexAddr); ok {
+									if nd2, _, ok := nodeArray(ia2.X); ok && path(nd2) != src {
+										moved = true
+									}
+								}
+							case *ssa.Call:
+								if cal := staticCallee(&u.Call); cal != nil && fname(cal) == "insertOne" && len(u.Call.Args) > 0 {
+									if nd2, _, ok := nodeArray(u.Call.Args[0]); ok && path(nd2) != src {
+										moved = true
+									}
+								}
+							}
+						}
+						if !moved {
+							return
+						}
+						k++
+						var first ssa.Instruction
+						for _, t := range touches {
+							if t.nd != src || (t.arr != arr && t.arr != "n") {
+								continue
+							}
+							tb := t.in.Block()
+							before := (tb == b && idxIn(t.in) < i) || (tb != b && tb.Dominates(b))
+							if before && first == nil {
+								first = t.in
+							}
+						}
+						r.ok(first == nil, name+"|moved-entry#"+itoa(k)+":"+src+"."+arr, ld.Pos(), "the entry moved out of "+src+"."+arr+" is read after "+src+" was already modified ("+func() string {
+							if first == nil {
+								return ""
+							}
+							return c.pos(first.Pos())
+						}()+"): the index now names another slot, so the wrong entry moves and the right one is lost")
 					})
 				}
 			}})
